@@ -232,7 +232,7 @@ def stored_depth_siblings(ctx, tag='stored-depth-siblings'):
     for t, i in enumerate(focus):
         ds = [spec[j].D[0] for j in nodes[i][2] if spec[j] is not None and spec[j].valid]
         if len(ds) >= 2:
-            ctx.count('sibling-depth-bytes:' + min(G.byte_relation(max(ds), d) for d in ds))
+            ctx.count('sibling-depth-bytes:' + G.sibling_relation(ds))
         check_dag(ctx, G.sub_dag(nodes, [i])[0], f'{tag}{t}', routes=('ctor',) if t % 4 else ('ctor', 'builder'), boc=(t % 16 == 0))
 
 
